@@ -161,6 +161,8 @@ class Router:
         self.next_id = 1000
         self.sessions = {}        # name -> session id
         self.regs = {}            # procedure -> (registration id, callee name)
+        self.reg_match = {}       # procedure -> "exact" | "prefix"
+        self.sub_match = {}       # topic -> "exact" | "prefix"
         self.reg_by_id = {}
         self.subs = {}            # topic -> (subscription id, [names])
         self.sub_by_id = {}
@@ -198,6 +200,7 @@ class Router:
             else:
                 rid = self._id()
                 self.regs[msg.procedure] = (rid, src)
+                self.reg_match[msg.procedure] = msg.match or "exact"
                 self.reg_by_id[rid] = msg.procedure
                 out(src, M.Registered(msg.request, rid))
         elif isinstance(msg, M.Unregister):
@@ -207,6 +210,7 @@ class Router:
                                  "wamp.error.no_such_registration"))
             else:
                 del self.regs[proc]
+                self.reg_match.pop(proc, None)
                 out(src, M.Unregistered(msg.request))
         elif isinstance(msg, M.Subscribe):
             if msg.topic in self.subs:
@@ -216,6 +220,7 @@ class Router:
             else:
                 sid = self._id()
                 self.subs[msg.topic] = (sid, [src])
+                self.sub_match[msg.topic] = msg.match or "exact"
                 self.sub_by_id[sid] = msg.topic
             out(src, M.Subscribed(msg.request, sid))
         elif isinstance(msg, M.Unsubscribe):
@@ -227,16 +232,25 @@ class Router:
                 self.subs[topic][1].remove(src)
                 out(src, M.Unsubscribed(msg.request))
         elif isinstance(msg, M.Call):
-            if msg.procedure not in self.regs:
+            reg = msg.procedure if self.reg_match.get(msg.procedure) == "exact" else None
+            if reg is None:
+                # pattern-based registrations: longest matching prefix
+                for p in sorted(self.regs, key=len, reverse=True):
+                    if self.reg_match.get(p) == "prefix" and msg.procedure.startswith(p):
+                        reg = p
+                        break
+            if reg is None:
                 out(src, M.Error(M.Call.MESSAGE_TYPE, msg.request,
                                  "wamp.error.no_such_procedure",
                                  args=["no callee registered for procedure <%s>" % msg.procedure]))
                 return
-            rid, callee = self.regs[msg.procedure]
+            rid, callee = self.regs[reg]
             inv = self._id()
             self.invocations[inv] = (src, msg.request)
             out(callee, M.Invocation(inv, rid, args=msg.args, kwargs=msg.kwargs,
                                      payload=msg.payload,
+                                     procedure=(msg.procedure if self.reg_match[reg] != "exact"
+                                                else None),
                                      receive_progress=msg.receive_progress,
                                      enc_algo=msg.enc_algo, enc_key=msg.enc_key,
                                      enc_serializer=msg.enc_serializer))
@@ -258,12 +272,16 @@ class Router:
                                     enc_serializer=msg.enc_serializer))
         elif isinstance(msg, M.Publish):
             pub = self._id()
-            if msg.topic in self.subs:
-                sid, names = self.subs[msg.topic]
+            for t in list(self.subs):
+                pattern = self.sub_match.get(t, "exact") != "exact"
+                if not (msg.topic.startswith(t) if pattern else msg.topic == t):
+                    continue
+                sid, names = self.subs[t]
                 for n in list(names):
                     if n == src and msg.exclude_me is not False:
                         continue
                     out(n, M.Event(sid, pub, args=msg.args, kwargs=msg.kwargs,
+                                   topic=(msg.topic if pattern else None),
                                    payload=msg.payload, enc_algo=msg.enc_algo,
                                    enc_key=msg.enc_key, enc_serializer=msg.enc_serializer))
             if msg.acknowledge:
